@@ -173,7 +173,9 @@ func ruleThreadConfinement(r *Run) {
 	for k := range by {
 		keys = append(keys, k)
 	}
-	sort.Slice(keys, func(i, j int) bool { return keys[i].owner+r.P.FieldName(keys[i].field) < keys[j].owner+r.P.FieldName(keys[j].field) })
+	sort.Slice(keys, func(i, j int) bool {
+		return keys[i].owner+r.P.FieldName(keys[i].field) < keys[j].owner+r.P.FieldName(keys[j].field)
+	})
 	n := 0
 	for _, k := range keys {
 		name := k.owner + "." + r.P.FieldName(k.field)
